@@ -91,19 +91,19 @@ macro_rules! ni_conf_dec_only {
     };
 }
 
-//@ harness name=aes128_ni_enc prop=C02,C03 tier=quick bits=256 stub=1 est=220 variants=aes:ni,aes:ni+zeroize,aes:ni+hazmat desc="W: Aes128::new(key).encrypt_block(b) (autodetect -> AES-NI arm) == FIPS-197 KeyExpansion + Cipher; all 2^128 keys x 2^128 blocks; round bodies and S-box uninterpreted (shared with the intrinsic models)"
-//@ harness name=aes128_ni_dec prop=C02,C03 tier=quick bits=256 stub=1 est=300 variants=aes:ni,aes:ni+zeroize,aes:ni+hazmat desc="W: Aes128::new(key).decrypt_block(b) (AES-NI arm, aesimc-transformed keys) == FIPS-197 EqInvCipher; all keys and blocks"
+//@ harness name=aes128_ni_enc prop=C02,C03 tier=quick bits=256 stub=1 variants=aes:ni,aes:ni+zeroize,aes:ni+hazmat est=105 desc="W: Aes128::new(key).encrypt_block(b) (autodetect -> AES-NI arm) == FIPS-197 KeyExpansion + Cipher; all 2^128 keys x 2^128 blocks; round bodies and S-box uninterpreted (shared with the intrinsic models)"
+//@ harness name=aes128_ni_dec prop=C02,C03 tier=quick bits=256 stub=1 variants=aes:ni,aes:ni+zeroize,aes:ni+hazmat est=130 desc="W: Aes128::new(key).decrypt_block(b) (AES-NI arm, aesimc-transformed keys) == FIPS-197 EqInvCipher; all keys and blocks"
 ni_conf!(aes128_ni_enc, aes128_ni_dec, crate::Aes128, 16);
-//@ harness name=aes192_ni_enc prop=C02,C03 tier=quick bits=320 stub=1 est=300 variants=aes:ni desc="W: Aes192 encrypt (AES-NI arm; 192-bit expansion with the shuffle() recombination) == FIPS-197; all keys and blocks"
-//@ harness name=aes192_ni_dec prop=C02,C03 tier=quick bits=320 stub=1 est=300 variants=aes:ni desc="W: Aes192 decrypt (AES-NI arm) == FIPS-197 EqInvCipher; all keys and blocks"
+//@ harness name=aes192_ni_enc prop=C02,C03 tier=quick bits=320 stub=1 variants=aes:ni est=120 desc="W: Aes192 encrypt (AES-NI arm; 192-bit expansion with the shuffle() recombination) == FIPS-197; all keys and blocks"
+//@ harness name=aes192_ni_dec prop=C02,C03 tier=quick bits=320 stub=1 variants=aes:ni est=145 desc="W: Aes192 decrypt (AES-NI arm) == FIPS-197 EqInvCipher; all keys and blocks"
 ni_conf!(aes192_ni_enc, aes192_ni_dec, crate::Aes192, 24);
-//@ harness name=aes256_ni_enc prop=C02,C03 tier=quick bits=384 stub=1 est=300 variants=aes:ni desc="W: Aes256 encrypt (AES-NI arm; 256-bit expansion with the extra SubWord step) == FIPS-197; all keys and blocks"
-//@ harness name=aes256_ni_dec prop=C02,C03 tier=quick bits=384 stub=1 est=300 variants=aes:ni desc="W: Aes256 decrypt (AES-NI arm) == FIPS-197 EqInvCipher; all keys and blocks"
+//@ harness name=aes256_ni_enc prop=C02,C03 tier=quick bits=384 stub=1 variants=aes:ni est=215 desc="W: Aes256 encrypt (AES-NI arm; 256-bit expansion with the extra SubWord step) == FIPS-197; all keys and blocks"
+//@ harness name=aes256_ni_dec prop=C02,C03 tier=quick bits=384 stub=1 variants=aes:ni est=240 desc="W: Aes256 decrypt (AES-NI arm) == FIPS-197 EqInvCipher; all keys and blocks"
 ni_conf!(aes256_ni_enc, aes256_ni_dec, crate::Aes256, 32);
 
-//@ harness name=aes128enc_ni prop=C02,C12 tier=quick bits=256 stub=1 est=220 variants=aes:ni desc="W: Aes128Enc::new(key).encrypt_block == FIPS-197 Cipher (encrypt-only type, own constructor), AES-NI arm"
+//@ harness name=aes128enc_ni prop=C02,C12 tier=quick bits=256 stub=1 variants=aes:ni est=95 desc="W: Aes128Enc::new(key).encrypt_block == FIPS-197 Cipher (encrypt-only type, own constructor), AES-NI arm"
 ni_conf_enc_only!(aes128enc_ni, crate::Aes128Enc, 16);
-//@ harness name=aes128dec_ni prop=C02,C12 tier=quick bits=256 stub=1 est=300 variants=aes:ni desc="W: Aes128Dec::new(key).decrypt_block == FIPS-197 EqInvCipher (decrypt-only type, own constructor), AES-NI arm"
+//@ harness name=aes128dec_ni prop=C02,C12 tier=quick bits=256 stub=1 variants=aes:ni est=130 desc="W: Aes128Dec::new(key).decrypt_block == FIPS-197 EqInvCipher (decrypt-only type, own constructor), AES-NI arm"
 ni_conf_dec_only!(aes128dec_ni, crate::Aes128Dec, 16);
 //@ harness name=aes192enc_ni prop=C02,C12 tier=thorough bits=320 stub=1 est=300 variants=aes:ni desc="W: Aes192Enc encrypt == FIPS-197, AES-NI arm"
 ni_conf_enc_only!(aes192enc_ni, crate::Aes192Enc, 24);
@@ -117,7 +117,7 @@ ni_conf_dec_only!(aes256dec_ni, crate::Aes256Dec, 32);
 // ---- oracle-only lemmas: FIPS-197 5.3.5 — the two facts that make EqInvCipher equal InvCipher
 // (FIPS-197 5.3.5: EqInvCipher == InvCipher because InvMixColumns is linear and InvShiftRows commutes with the bytewise
 // InvSubBytes; one query per fact, each over one state column / one state where that suffices)
-//@ harness name=fips_imc_linear prop=C02 tier=quick bits=64 est=30 desc="oracle lemma (FIPS-197 5.3.5): InvMixColumns(x ^ k) == InvMixColumns(x) ^ InvMixColumns(k) on a state whose first column is symbolic in x and k (columns are mixed independently by the same matrix); all 2^32 x 2^32 column values"
+//@ harness name=fips_imc_linear prop=C02 tier=quick bits=64 est=35 desc="oracle lemma (FIPS-197 5.3.5): InvMixColumns(x ^ k) == InvMixColumns(x) ^ InvMixColumns(k) on a state whose first column is symbolic in x and k (columns are mixed independently by the same matrix); all 2^32 x 2^32 column values"
 verif_harness! {
     name: fips_imc_linear,
     bytes: 8,
@@ -134,7 +134,7 @@ verif_harness! {
         Some(ra::inv_mix_columns(&ra::xor(&x, &k)) == ra::xor(&ra::inv_mix_columns(&x), &ra::inv_mix_columns(&k)))
     }
 }
-//@ harness name=fips_mc_inverse prop=C02,C17 tier=quick bits=268 est=120 desc="oracle lemma, FIPS MixColumns M and InvMixColumns I are mutual inverses: (a) M(x^y) == M(x)^M(y) and I(x^y) == I(x)^I(y) for all 2^128 x 2^128 pairs, (b) I(M(e)) == e and M(I(e)) == e for every state e with a single non-zero byte (position and value symbolic); every state is the XOR of its 16 single-byte components, so (a)+(b) give I o M == M o I == id (the direct composition query is a wide-parity equivalence that does not finish)"
+//@ harness name=fips_mc_inverse prop=C02,C17 tier=quick bits=268 est=80 desc="oracle lemma, FIPS MixColumns M and InvMixColumns I are mutual inverses: (a) M(x^y) == M(x)^M(y) and I(x^y) == I(x)^I(y) for all 2^128 x 2^128 pairs, (b) I(M(e)) == e and M(I(e)) == e for every state e with a single non-zero byte (position and value symbolic); every state is the XOR of its 16 single-byte components, so (a)+(b) give I o M == M o I == id (the direct composition query is a wide-parity equivalence that does not finish)"
 verif_harness! {
     name: fips_mc_inverse,
     bytes: 34,
@@ -153,7 +153,7 @@ verif_harness! {
         Some(ra::mix_columns(&ra::inv_mix_columns(&e)) == e)
     }
 }
-//@ harness name=fips_shiftrows_commute prop=C02 tier=quick bits=128 est=30 desc="oracle lemma: InvShiftRows and ShiftRows are mutually inverse, and InvShiftRows commutes with the bytewise InvSubBytes (it only moves bytes); all 2^128 states"
+//@ harness name=fips_shiftrows_commute prop=C02 tier=quick bits=128 est=20 desc="oracle lemma: InvShiftRows and ShiftRows are mutually inverse, and InvShiftRows commutes with the bytewise InvSubBytes (it only moves bytes); all 2^128 states"
 verif_harness! {
     name: fips_shiftrows_commute,
     bytes: 16,
@@ -167,7 +167,7 @@ verif_harness! {
         Some(ra::sub_bytes_with(&ra::inv_shift_rows(&x), &ra::inv_sbox) == ra::inv_shift_rows(&ra::sub_bytes_with(&x, &ra::inv_sbox)))
     }
 }
-//@ harness name=fips_sbox_inverse prop=C02 tier=quick bits=8 est=20 desc="oracle lemma: InvSubBytes(SubBytes(x)) == x for all bytes (generated S-box tables are mutually inverse permutations)"
+//@ harness name=fips_sbox_inverse prop=C02 tier=quick bits=8 est=10 desc="oracle lemma: InvSubBytes(SubBytes(x)) == x for all bytes (generated S-box tables are mutually inverse permutations)"
 verif_harness! {
     name: fips_sbox_inverse,
     bytes: 1,
@@ -198,15 +198,15 @@ macro_rules! aes_weak {
         }
     };
 }
-//@ harness name=aes128_weak prop=C13 tier=quick bits=128 est=15 desc="Aes128::weak_key_test(k) fails <=> the first 8 key bytes are zero; all 2^128 keys"
+//@ harness name=aes128_weak prop=C13 tier=quick bits=128 est=10 desc="Aes128::weak_key_test(k) fails <=> the first 8 key bytes are zero; all 2^128 keys"
 aes_weak!(aes128_weak, crate::Aes128, 16);
-//@ harness name=aes192_weak prop=C13 tier=quick bits=192 est=15 desc="Aes192::weak_key_test(k) fails <=> the first 12 key bytes are zero; all 2^192 keys"
+//@ harness name=aes192_weak prop=C13 tier=quick bits=192 est=10 desc="Aes192::weak_key_test(k) fails <=> the first 12 key bytes are zero; all 2^192 keys"
 aes_weak!(aes192_weak, crate::Aes192, 24);
-//@ harness name=aes256_weak prop=C13 tier=quick bits=256 est=15 desc="Aes256::weak_key_test(k) fails <=> the first 16 key bytes are zero; all 2^256 keys"
+//@ harness name=aes256_weak prop=C13 tier=quick bits=256 est=10 desc="Aes256::weak_key_test(k) fails <=> the first 16 key bytes are zero; all 2^256 keys"
 aes_weak!(aes256_weak, crate::Aes256, 32);
-//@ harness name=aes128enc_weak prop=C13 tier=quick bits=128 est=15 desc="Aes128Enc::weak_key_test: upper half zero, all keys"
+//@ harness name=aes128enc_weak prop=C13 tier=quick bits=128 est=10 desc="Aes128Enc::weak_key_test: upper half zero, all keys"
 aes_weak!(aes128enc_weak, crate::Aes128Enc, 16);
-//@ harness name=aes128dec_weak prop=C13 tier=quick bits=128 est=15 desc="Aes128Dec::weak_key_test: upper half zero, all keys"
+//@ harness name=aes128dec_weak prop=C13 tier=quick bits=128 est=10 desc="Aes128Dec::weak_key_test: upper half zero, all keys"
 aes_weak!(aes128dec_weak, crate::Aes128Dec, 16);
 //@ harness name=aes192enc_weak prop=C13 tier=quick bits=192 est=15 desc="Aes192Enc::weak_key_test: upper half zero, all keys"
 aes_weak!(aes192enc_weak, crate::Aes192Enc, 24);
@@ -214,5 +214,5 @@ aes_weak!(aes192enc_weak, crate::Aes192Enc, 24);
 aes_weak!(aes192dec_weak, crate::Aes192Dec, 24);
 //@ harness name=aes256enc_weak prop=C13 tier=quick bits=256 est=15 desc="Aes256Enc::weak_key_test: upper half zero, all keys"
 aes_weak!(aes256enc_weak, crate::Aes256Enc, 32);
-//@ harness name=aes256dec_weak prop=C13 tier=quick bits=256 est=15 desc="Aes256Dec::weak_key_test: upper half zero, all keys"
+//@ harness name=aes256dec_weak prop=C13 tier=quick bits=256 est=10 desc="Aes256Dec::weak_key_test: upper half zero, all keys"
 aes_weak!(aes256dec_weak, crate::Aes256Dec, 32);
